@@ -23,6 +23,7 @@ def check(ctx):
     s4_one_debit_per_fill(ctx)
     s5_history(ctx)
     s6_aggregates(ctx)
+    s3b_refused_movements(ctx)
     refl = reflection_sites(M)
     ctx.require(not [r for r in refl if r[2] in ('setattr', 'delattr', 'exec', 'eval', '__dict__', '__setattr__', 'vars', 'globals')],
                 'C01.closed-world', 'no reflection in the package', refl[0][0].site(refl[0][1]) if refl else None,
@@ -351,3 +352,17 @@ def s6_aggregates(ctx):
             good = body[0] == 'attr' and body[2] == prop
         ctx.require(good, 'C01.S6', '%s sums the per-portfolio %s' % (qn, prop), lp.site, fmt(body), key='C01.S6|%s|summand' % qn)
         ctx.sample({'rule': 'C01.S6', 'function': qn, 'master': fmt(master)})
+
+
+# ------------------------------------------------------------------------------------------------ S3b
+def s3b_refused_movements(ctx):
+    """A refused movement moves no cash: no explicit raise is reachable after a balance or history write (zero-sum on the refused path too)."""
+    from ..vbm import dirty_raises
+    prot = {'cash_balances': 'master cash', 'cash': 'portfolio cash', 'history': 'history'}
+    for e in ('SimulatedBroker.subscribe_funds_to_portfolio', 'SimulatedBroker.withdraw_funds_from_portfolio', 'SimulatedBroker.subscribe_funds_to_account',
+              'SimulatedBroker.withdraw_funds_from_account', 'Portfolio.subscribe_funds', 'Portfolio.withdraw_funds', 'Portfolio.transact_asset'):
+        reps, nraise, npaths = dirty_raises(ctx, e, protected=prot)
+        for r in reps:
+            inst = '%s: refusal %s in %s leaves every balance and the history untouched' % (e, r['exc'], r['fn'])
+            ctx.require(not r['writes'], 'C01.S3b', inst, r['site'], 'writes that may precede the refusal: ' + '; '.join('%s via %s at %s' % w[:3] for w in r['writes'][:4]),
+                        key='C01.S3b|%s|%s:%s' % (e, r['fn'], r['exc']))
